@@ -1094,6 +1094,8 @@ fn caller_plans(single: &Obs, k: usize, thorough: bool) -> Vec<Vec<CallerPlan>> 
 }
 
 fn main() {
+    // a stack overflow / abort in the code under test must become a verdict, not a dead check
+    vcore::supervise("C18");
     let ctx = Ctx::from_args("C18", "fault_enumeration");
     let thorough = !ctx.quick();
 
